@@ -133,10 +133,35 @@ def wrapped_right(enclosing, nested):
     return all(e in it for e in enclosing)
 
 
+def split_props(props):
+    """the same fields spread over two legacy document types: a container with several children is declared in both types (same
+    kind, as ES < 6 requires) with one part of its children each; other fields alternate"""
+    a, b = [], []
+    for i, (nm, k) in enumerate(props):
+        sub = k[1] if isinstance(k, tuple) else None
+        if sub is not None and len(sub) >= 2:
+            sa, sb = split_props(sub)
+            if not sa or not sb:
+                sa, sb = sub[: len(sub) // 2], sub[len(sub) // 2:]
+            a.append((nm, (k[0], sa)))
+            b.append((nm, (k[0], sb)))
+        elif i % 2 == 0:
+            a.append((nm, k))
+        else:
+            b.append((nm, k))
+    return a, b
+
+
 def check(item):
     idx, props, layout = item
     mp = {"properties": to_mapping(props)}
-    schema = {"mappings": mp if layout == "current" else {"doc_type": mp}}
+    if layout == "typed2":
+        pa, pb = split_props(props)
+        if not pa or not pb:
+            return 0, []
+        schema = {"mappings": {"type_a": {"properties": to_mapping(pa)}, "type_b": {"properties": to_mapping(pb)}}}
+    else:
+        schema = {"mappings": mp if layout == "current" else {"doc_type": mp}}
     fails = []
     n = 0
     try:
@@ -305,7 +330,7 @@ def main():
         allprops += gen_props(len(w), ["f", "g"], tuple(w), True)
     allprops += HAND
     for props in allprops:
-        for layout in ("current", "typed"):
+        for layout in ("current", "typed", "typed2"):
             items.append((idx, props, layout))
             idx += 1
     res = pmap(check, items)
@@ -314,7 +339,7 @@ def main():
     rest, hit = classify(failures, p.get("known", []))
     emit({"ok": not rest, "evaluations": sum(r[0] for r in res) + n2, "distinct_nontrivial": len(items),
           "rule": "all mappings of depth <= 2 with 1-2 fields per level, plus deeper ones with per-level widths %r, plus per-level widths %r with the extended kinds (legacy string / not_analyzed string, integer, keyword with a text multi-field, object declared by properties only); kinds {text, keyword, text with "
-                  "keyword multi-field, object, nested}, two layouts; every leaf field x up to 3 query spellings; + spelling groups of field "
+                  "keyword multi-field, object, nested}, three layouts (current, one legacy document type, two legacy document types sharing containers); every leaf field x up to 3 query spellings; + spelling groups of field "
                   "specs; %d hand-picked deeper mappings; distinct = (mapping, layout)" % (p.get("deep", []), p.get("ext", []), len(HAND)),
           "bound": "mapping depth <= 2 width <= 2, deeper: widths %r, extended kinds: widths %r" % (p.get("deep", []), p.get("ext", [])),
           "samples": [{"mapping": to_mapping(gen_props(2, ["f", "g"])[7])}],
